@@ -127,6 +127,91 @@ std::string handle(const std::vector<std::string>& a) {
             }
             return out;
         }
+        // ---- generators for the interior-claim audit of C04 (untrusted; they only select positions to search) ----
+        if (a[0] == "esc" && a.size() >= 4) {
+            // which moves of the side to move do NOT run into a forced mate within n opponent moves?
+            // -> esc <inCheck> <#legal> <#saving> <side to move has a piece and a pawn> : <saving move><flags q|x|+|p> ...
+            int n = (int)vToU64(a[1]);
+            Position pos = TextIO::readFEN(vFenOf(a, 3, a.size()));
+            MoveList ml; Solver::legalMoves(pos, ml);
+            if (ml.size == 0) return "nomoves";
+            bool w = pos.isWhiteMove();
+            bool pp = w ? (pos.wMtrl() > pos.wMtrlPawns() && pos.wMtrlPawns() > 0) : (pos.bMtrl() > pos.bMtrlPawns() && pos.bMtrlPawns() > 0);
+            std::string sv; int nsv = 0;
+            for (int i = 0; i < ml.size; i++) {
+                std::string fl;
+                if (pos.getPiece(ml[i].to()) != Piece::EMPTY) fl += "x";
+                if (ml[i].promoteTo() != Piece::EMPTY) fl += "p";
+                if (MoveGen::givesCheck(pos, ml[i])) fl += "+";
+                if (fl.empty()) fl = "q";
+                UndoInfo ui; pos.makeMove(ml[i], ui);
+                Solver s; s.budget = (long long)vToU64(a[2]); std::string c;
+                bool win = s.win(pos, n, c);
+                pos.unMakeMove(ml[i], ui);
+                if (s.exhausted) return "unknown";
+                if (!win) { nsv++; sv += " " + Solver::u(ml[i]) + fl; }
+            }
+            return std::string("esc ") + (MoveGen::inCheck(pos) ? "1 " : "0 ") + std::to_string(ml.size) + " " + std::to_string(nsv) + (pp ? " 1 :" : " 0 :") + sv;
+        }
+        if (a[0] == "zug" && a.size() >= 4) {
+            // null-move zugzwang: would passing mate faster than any move?  -> zug <a> <b> <c>:
+            //   a = after a pass the opponent (to move) is mated within m moves whatever it plays,
+            //   b = the side to move has a forced mate within m+1 moves, c = it has a piece and a pawn (null move allowed)
+            int m = (int)vToU64(a[1]);
+            Position pos = TextIO::readFEN(vFenOf(a, 3, a.size()));
+            if (MoveGen::inCheck(pos)) return "zug 0 0 0";
+            bool w = pos.isWhiteMove();
+            bool pp = w ? (pos.wMtrl() > pos.wMtrlPawns() && pos.wMtrlPawns() > 0) : (pos.bMtrl() > pos.bMtrlPawns() && pos.bMtrlPawns() > 0);
+            Position np(pos);
+            np.setWhiteMove(!w); np.setEpSquare(Square(-1));
+            MoveList ml; Solver::legalMoves(np, ml);
+            bool lost = ml.size > 0;
+            for (int i = 0; i < ml.size && lost; i++) {
+                UndoInfo ui; np.makeMove(ml[i], ui);
+                Solver s; s.budget = (long long)vToU64(a[2]); std::string c;
+                if (!s.win(np, m, c)) lost = false;
+                np.unMakeMove(ml[i], ui);
+                if (s.exhausted) return "unknown";
+            }
+            if (!lost) return std::string("zug 0 0 ") + (pp ? "1" : "0");
+            Solver s; s.budget = (long long)vToU64(a[2]) * 4; std::string c;
+            bool win = s.win(pos, m + 1, c);
+            if (s.exhausted) return "unknown";
+            return std::string("zug 1 ") + (win ? "1 " : "0 ") + (pp ? "1" : "0");
+        }
+        if (a[0] == "pred" && a.size() >= 2) {
+            // predecessors by a non-capturing, non-promoting, non-castling retro-move of the side that just moved; each one
+            // is verified by playing the move forward.  -> pred <fen> | <fen> | ...
+            Position pos = TextIO::readFEN(vFenOf(a, 1, a.size()));
+            if (pos.getEpSquare().isValid()) return "pred";
+            std::string target = TextIO::toFEN(pos); target = target.substr(0, target.find(' ', target.find(' ', target.find(' ', target.find(' ') + 1) + 1) + 1));
+            bool mover = !pos.isWhiteMove();
+            std::string out = "pred";
+            for (int t = 0; t < 64; t++) {
+                int pc = pos.getPiece(Square(t));
+                if (pc == Piece::EMPTY || Piece::isWhite(pc) != mover) continue;
+                for (int f = 0; f < 64; f++) {
+                    if (f == t || pos.getPiece(Square(f)) != Piece::EMPTY) continue;
+                    if ((pc == Piece::WPAWN || pc == Piece::BPAWN) && (f / 8 == 0 || f / 8 == 7)) continue;
+                    Position r(pos);
+                    r.setPiece(Square(t), Piece::EMPTY); r.setPiece(Square(f), pc);
+                    r.setWhiteMove(mover); r.setCastleMask(0); r.setHalfMoveClock(0);
+                    std::string rf = TextIO::toFEN(r);
+                    try {
+                        Position r2 = TextIO::readFEN(rf);
+                        MoveList ml; Solver::legalMoves(r2, ml);
+                        for (int i = 0; i < ml.size; i++) {
+                            if (ml[i].from().asInt() != f || ml[i].to().asInt() != t || ml[i].promoteTo() != Piece::EMPTY) continue;
+                            UndoInfo ui; r2.makeMove(ml[i], ui);
+                            std::string g = TextIO::toFEN(r2); g = g.substr(0, g.find(' ', g.find(' ', g.find(' ', g.find(' ') + 1) + 1) + 1));
+                            r2.unMakeMove(ml[i], ui);
+                            if (g == target) out += (out.size() > 4 ? " | " : " ") + rf;
+                        }
+                    } catch (const ChessParseError&) { }
+                }
+            }
+            return out;
+        }
     } catch (const ChessParseError& e) {
         return "err " + vFenErrClass(e.what());
     }
